@@ -708,7 +708,11 @@ func genFaults(r *rand.Rand, st *world.State, g string) []world.Fault {
 		case 7:
 			fs = append(fs, world.Fault{Op: "terminate", T: n})
 		case 8:
-			fs = append(fs, world.Fault{Op: "set_desired", T: g})
+			if r.Intn(2) == 0 && g == st.Gorder[len(st.Gorder)-1] { // the cloud takes one tick to answer (only for the group scanned last)
+				fs = append(fs, world.Fault{Op: "slow", T: g})
+			} else {
+				fs = append(fs, world.Fault{Op: "set_desired", T: g})
+			}
 		}
 	}
 	return fs
